@@ -148,7 +148,7 @@ impl<C: Cfg> World<C> {
             }
             OP_GET => {
                 let idx = ch.pick(len as u32 + 2) as usize;
-                let view = ch.pick(8);
+                let view = ch.pick(12);
                 self.do_get(v, idx, view, tr);
             }
             OP_ITER => {
@@ -181,7 +181,7 @@ impl<C: Cfg> World<C> {
                 if kind != 7 && self.spec.mon & MON_ITER != 0 {
                     if !calls.is_empty() && ch.flip() {
                         let pos = ch.pick(calls.len().min(3) as u32) as usize;
-                        skips[pos] = 1 + ch.pick(len as u32 + 2) as u8;
+                        skips[pos] = (1 + ch.pick(len.min(200) as u32 + 2)).min(250) as u8;
                     }
                     finish = ch.pick(4);
                 }
@@ -225,7 +225,7 @@ impl<C: Cfg> World<C> {
                 if !self.dead() && len > 0 {
                     // read back through an independently chosen view
                     let _ = write!(tr, " then ");
-                    let view = ch.pick(8);
+                    let view = ch.pick(12);
                     self.do_get(v, idx % len, view, tr);
                 }
             }
